@@ -396,8 +396,10 @@ pub fn duplicate_name_programs() -> Vec<String> {
                 (format!("(a, b, a) := ({v}, 2.5, {w});"), "a"),
                 (format!("m := mod {{ a := {v}; b := 2.5; a := {w}; }};"), "m.a"),
             ] {
-                out.push(format!("{decl} r := {}; r", use_of.replace('@', name)));
-                out.push(format!("f := () -> any {{ {decl} r := {}; return r; }}; f()", use_of.replace('@', name)));
+                // (the holder is part of the result: a cell it holds is looked at after the run)
+                let holder = name.split('.').next().unwrap_or(name);
+                out.push(format!("{decl} r := {}; (r, {holder})", use_of.replace('@', name)));
+                out.push(format!("f := () -> any {{ {decl} r := {}; return (r, {holder}); }}; f()", use_of.replace('@', name)));
             }
             out.push(format!("f := (a: any, a: any) -> any {{ return 0; }}; g := (a: int, a: string) -> any {{ r := {}; return r; }}; g(1, \"s\")", use_of.replace('@', "a")));
         }
